@@ -402,10 +402,12 @@ def _(Hh, rng):
     if not n:
         return None
     a = Hh.env[n]
-    d0 = a.to_ndarray()
+    mx = float(np.max(np.abs(a.to_ndarray()), initial=0.0))
     detect = rng.random() < 0.5
+    if detect and 0.0 < mx <= 1.e-8:
+        return None   # rounding residue of a factorization: whether detect_qtotal 'sees' it depends on its cutoff
     return dict(a=n, out=Hh.fresh(), col=rng.randrange(a.chinfo.qnumber), detect=detect,
-                bunch=rng.random() < 0.8, give_chinfo=rng.random() < 0.4, valid=bool(np.any(d0 != 0)) or not detect)
+                bunch=rng.random() < 0.8, give_chinfo=rng.random() < 0.4, valid=mx > 1.e-8 or not detect)
 
 
 def square_cands(Hh):
